@@ -9,6 +9,83 @@ from harness import common as C
 from harness import fm_common as FM
 from harness import c01 as T
 
+# ---- source tie (harness/translate.py, dialect 'shaped'): re-translated on every run into lean/TaurexModel/Gen/SrcC03.lean;
+# lean/Props/C03Src.lean proves each definition equal to the model function of TaurexModel/Sigma.lean / Transmission.lean.
+_CT = 'taurex/contributions/contribution.py'
+_CIA = 'taurex/contributions/cia.py'
+_KERNEL = dict(startK='nat', endK='nat', density_offset='nat', sigma='arr2', density='arr', path='arr', nlayers='skip',
+               ngrid='nat', layer='nat', tau='arr2')
+_CONTRIB = dict(model='skip', start_layer='nat', end_layer='nat', density_offset='nat', layer='nat', density='arr',
+                tau='arr2', path_length='arr')
+SRC_SPECS = [
+    # Contribution.prepare: sigma_xsec = zeros; for name, component in self.prepare_each(...): sigma_xsec += component
+    dict(module=_CT, cls='Contribution', func='prepare', lean='contribution_prepare', dialect='shaped',
+         params=dict(model='skip', wngrid='skip'), lens={'wngrid': 'nW'},
+         attrs={'model.nLayers': ('nL', 'nat'), 'self._ngrid': ('ngrid', 'nat'), 'self._nlayers': ('nlayers', 'nat'),
+                'self.sigma_xsec': ('sigma_attr', 'arr2')},
+         local_attrs=['self._ngrid', 'self._nlayers', 'self.sigma_xsec'], out='self.sigma_xsec', returns='arr2',
+         vallists={'self.prepare_each(model, wngrid)': ('comps', ['skip', 'arr2'])}),
+    # CIAContribution.prepare_each: one component per pair, the shared buffer zeroed in between
+    dict(module=_CIA, cls='CIAContribution', func='prepare_each', lean='cia_prepare_each', dialect='shaped',
+         params=dict(model='skip', wngrid='skip'), lens={'wngrid': 'nW'},
+         attrs={'model.nLayers': ('nL', 'nat'), 'model.temperatureProfile': ('T', 'arr')},
+         dims={'model.temperatureProfile': ['nL']},
+         ignore_stores=['self._total_cia', 'self._nlayers', 'self._ngrid', 'self.sigma_xsec'],
+         ignore_stmts=['chemistry = model.chemistry'], objlists={'self.ciaPairs': 'pairs'},
+         obj_derived={'cia = self._cia_cache[pairName]': ('cia', 'pairName')},
+         obj_externals={
+             'chemistry.get_gas_mix_profile(cia.pairOne)': dict(lean='mixOne', of=['cia'], kind='arr', shape=['nL']),
+             'chemistry.get_gas_mix_profile(cia.pairTwo)': dict(lean='mixTwo', of=['cia'], kind='arr', shape=['nL']),
+             'cia.cia(temperature, wngrid)': dict(lean='ciaXsec', of=['cia'], args=['temperature'], kind='arr',
+                                                  shape=['nW'])},
+         yields='list', returns='arr2list'),
+    # RayleighContribution.prepare_each: one component per molecule with non-zero abundance and a known law
+    dict(module='taurex/contributions/rayleigh.py', cls='RayleighContribution', func='prepare_each',
+         lean='rayleigh_prepare_each', dialect='shaped', params=dict(model='skip', wngrid='skip'), lens={'wngrid': 'nW'},
+         attrs={'model.nLayers': ('nL', 'nat')},
+         ignore_stores=['self._ngrid', 'self._nmols', 'self._nlayers', 'self.sigma_xsec'],
+         objlists={'molecules': 'molecules'}, obj_assign=['molecules'],
+         obj_externals={
+             'model.chemistry.get_gas_mix_profile(gasname)': dict(lean='mix', of=['gasname'], kind='arr', shape=['nL']),
+             'rayleigh_sigma_from_name(gasname, wngrid)': dict(lean='law', of=['gasname'], kind='arr', shape=['nW'],
+                                                               optional=True)},
+         yields='list', returns='arr2list'),
+    # AbsorptionContribution.prepare_each, cross-section mode (`opacity_method` != 'ktables': declared static): one
+    # component per active gas; the buffer is allocated for the first gas and zeroed for the others
+    dict(module='taurex/contributions/absorption.py', cls='AbsorptionContribution', func='prepare_each',
+         lean='absorption_prepare_each', dialect='shaped', params=dict(model='skip', wngrid='skip'), lens={'wngrid': 'nW'},
+         attrs={'self._ngrid': ('ngrid', 'nat'), 'self._nlayers': ('nlayers', 'nat'),
+                'model.temperatureProfile': ('T', 'arr'), 'model.pressureProfile': ('P', 'arr')},
+         dims={'model.temperatureProfile': ['nlayers'], 'model.pressureProfile': ['nlayers']},
+         local_attrs=['self._ngrid'], static={'self._use_ktables': False}, optional_vars=['sigma_xsec'],
+         ignore_stores=['self._use_ktables', 'self._opacity_cache', 'self.weights', 'self.sigma_xsec'],
+         ignore_stmts=['weights = None'], objlists={'model.chemistry.activeGases': 'gases'},
+         obj_derived={'xsec = self._opacity_cache[gas]': ('xsec', 'gas')},
+         obj_externals={
+             'model.chemistry.get_gas_mix_profile(gas)': dict(lean='mix', of=['gas'], kind='arr', shape=['nlayers']),
+             'xsec.opacity(temperature, pressure, wngrid)': dict(lean='opacity', of=['xsec'],
+                                                                 args=['temperature', 'pressure'], kind='arr',
+                                                                 shape=['nW'])},
+         yields='list', returns='arr2list'),
+    # AbsorptionContribution.prepare: like Contribution.prepare, the sum allocated at the first component
+    dict(module='taurex/contributions/absorption.py', cls='AbsorptionContribution', func='prepare',
+         lean='absorption_prepare', dialect='shaped', params=dict(model='skip', wngrid='skip'), lens={'wngrid': 'nW'},
+         attrs={'model.nLayers': ('nL', 'nat'), 'self._ngrid': ('ngrid', 'nat'), 'self._nlayers': ('nlayers', 'nat'),
+                'self.sigma_xsec': ('sigma_attr', 'optarr2')},
+         local_attrs=['self._ngrid', 'self._nlayers', 'self.sigma_xsec'], optional_vars=['sigma_xsec'],
+         out='self.sigma_xsec', returns='optarr2',
+         vallists={'self.prepare_each(model, wngrid)': ('comps', ['skip', 'arr2'])}),
+    # the kernels that turn sigma_xsec into optical depth (as in C01)
+    dict(module=_CT, func='contribute_tau', lean='contribute_tau', dialect='shaped', params=_KERNEL, out='tau',
+         returns='arr2'),
+    dict(module=_CIA, func='contribute_cia', lean='contribute_cia', dialect='shaped', params=_KERNEL, out='tau',
+         returns='arr2'),
+    dict(module=_CIA, cls='CIAContribution', func='contribute', lean='cia_contribute', dialect='shaped', params=_CONTRIB,
+         attrs={'self.sigma_xsec': ('sigma', 'arr2'), 'self._ngrid': ('ngrid', 'nat'), 'self._nlayers': ('nlayers', 'nat'),
+                'self._total_cia': ('totalCia', 'nat')},
+         out='tau', returns='arr2'),
+]
+
 RULE = ('real TransmissionModel, 2-25 layers, 1-5 wavenumbers, 2-4 trace gases (constant/array profiles), CIA pairs '
         'H2-H2, H2-He, H2-<trace gas>, contributions drawn from {Absorption, CIA, Rayleigh, SimpleClouds, FlatMie | '
         'LeeMie, HydrogenIon} (at least two) in shuffled insertion order, opacity regime thin/mid/thick; every 3rd case '
